@@ -69,6 +69,16 @@ func (sp *Scope) GetValueWithModuleID(name string) (Element, int) {
 	return nil, -1
 }
 
+// GetSymbolDepth - get the depth of the latest symbol that matches the name
+// (imported values are declared at depth 0); when not found, return -1
+func (sp *Scope) GetSymbolDepth(name string) int {
+	symbolID := sp.getSymbolID(name)
+	if symbolID >= 0 {
+		return sp.locals[symbolID].depth
+	}
+	return -1
+}
+
 // SetValue - set from existing symbol
 func (sp *Scope) SetValue(name string, value Element) error {
 	for i := sp.localCount - 1; i >= 0; i-- {
